@@ -21,6 +21,9 @@ void plan_note(const char *fmt, ...) __attribute__((format(printf, 1, 2))); // h
 // oracle: stable identifier of the failed oracle ("C07.overlap"); becomes the violation class.
 [[noreturn]] void fail(const char *oracle, const char *fmt, ...) __attribute__((format(printf, 2, 3)));
 #define DSIM_CHECK(cond, oracle, ...) do { if (!(cond)) ::dsim::fail(oracle, __VA_ARGS__); } while (0)
+// like fail(), but the run continues and the failure is reported when it ends; the end-of-run leak check is skipped.
+// Used for recorded known findings so that the rest of the run is still judged (a later fail() takes precedence).
+void soft_fail(const char *oracle, const char *fmt, ...) __attribute__((format(printf, 2, 3)));
 // scenario found that the drawn plan is not executable under the API contract: run counts as skipped
 [[noreturn]] void skip(const char *why);
 
